@@ -18,6 +18,10 @@ from . import common, oracles
 from .c13 import common_of
 
 
+# hint sites outside GlGadgets' four inside this code region are probed with generic alternatives after run() (bin/check, common.Ctx.foreign)
+FOREIGN = (("plonk.(*PlonkChip)",), ("testdata",))
+
+
 def run(ctx):
     ctx.rule = ("(description, opening/challenge set): real descriptions of both circuits with the proof's own data and seeded random data; synthetic descriptions "
                 "nc in 1..3 x routed wires x degree factor (seeded, including non-divisible pairs); each accepted set x seeded single perturbations; distinct = distinct data sets / perturbations")
